@@ -16,7 +16,8 @@ From Pq Require Import Base.Bytes Base.Err Base.ListX Codec.Varint Codec.Zigzag 
   Codec.Hybrid Impl.CVarint Impl.CBitpack Impl.CRle Impl.CDelta
   Codec.Plain Proofs.CodecProofs Proofs.PlainProofs Proofs.HybridProofs
   Codec.Delta Impl.CHybrid Impl.PyPack Proofs.DeltaProofs Proofs.CBitpackProofs Proofs.CRleProofs Proofs.CVarintProofs
-  Impl.CEnc Proofs.CDeltaProofs Proofs.CBoolProofs Proofs.CHybridProofs Proofs.CPlainProofs Proofs.CEncProofs.
+  Impl.CEnc Proofs.CDeltaProofs Proofs.CBoolProofs Proofs.CHybridProofs Proofs.CPlainProofs Proofs.CEncProofs
+  Impl.Dispatch Proofs.DispatchProofs.
 Import ListNotations.
 Open Scope N_scope.
 
@@ -226,6 +227,51 @@ Print Assumptions C11_varint_reads_spec_encoding.
 Theorem C11_zigzag_long_correct : forall n, n < 2 ^ 64 -> s64 (c_zigzag_long n) = zz_dec n.
 Proof. exact zigzag_long_correct. Qed.
 Print Assumptions C11_zigzag_long_correct.
+
+(* ---- the Python-level dispatch around the codecs (encoding.read_plain, the index decoders of the page readers) ----
+   The decision functions themselves are REGENERATED from the source on every run (translators/dispatch2coq.py) and
+   proved there (genproofs/GenDispatchProofs.v) to pick, for every physical type, the leaf the format prescribes and, for
+   every (bit width 0..32, foreign / self-made), an ADEQUATE index decoder.  Here: what the leaves compute. *)
+
+(* the leaf the format prescribes for a physical type returns the PLAIN decoding of the page, every type, every page *)
+Theorem C11_plain_leaf_correct : forall t count width utf stat raw,
+  t <= 7 -> bytes_ok raw ->
+  (t = 0 -> (count + 7) / 8 <= lenN raw) ->
+  (t = 6 -> stat = false -> exists xs, raw = ba_enc xs /\ count = N.of_nat (length xs) /\ Forall item_ok xs) ->
+  run_pdec (spec_plain_dispatch t count width (lenN raw) utf stat) raw = spec_plain t count width stat raw.
+Proof. exact plain_leaf_correct. Qed.
+Print Assumptions C11_plain_leaf_correct.
+
+(* an adequate generic leaf returns the spec values of every stream of runs inside the decoder's region *)
+Theorem C11_generic_leaf_values : forall w selfmade a isz rs,
+  adequate w selfmade (DGeneric a isz) = true ->
+  Forall (irun_ok w isz) rs -> rs <> [] ->
+  run_idec (DGeneric a isz) w (hyb_enc w rs) (lenN (allvals rs)) = Some (map (tr isz) (allvals rs)).
+Proof. exact generic_leaf_values. Qed.
+Print Assumptions C11_generic_leaf_values.
+
+Theorem C11_item_holds_width : forall w isz v, isz = 1 \/ isz = 4 -> w <= 8 * isz -> w <= 32 -> v < 2 ^ w -> tr isz v = v.
+Proof. exact tr_id. Qed.
+Print Assumptions C11_item_holds_width.
+
+(* the array view of fastparquet's own index block (run header + the codes as 1-, 2- or 4-byte integers) gives the codes *)
+Theorem C11_fast_leaf_correct : forall k h vals,
+  (k = 1 \/ k = 2 \/ k = 4)%nat -> h < 2 ^ 64 ->
+  Forall (fun v => v < 256 ^ N.of_nat k) vals ->
+  fast_read (8 * N.of_nat k) (uleb_enc h ++ fixed_enc k vals) (N.of_nat (length vals)) = Some vals.
+Proof. exact fast_leaf_correct. Qed.
+Print Assumptions C11_fast_leaf_correct.
+
+(* what adequacy of a choice means *)
+Theorem C11_adequate_facts : forall w selfmade d, adequate w selfmade d = true ->
+  match d with
+  | DFast => selfmade = true /\ own_width w = true
+  | DGeneric a isz => a = isz /\ (isz = 1 \/ isz = 4) /\ 0 < w <= 8 * isz /\ (selfmade = true -> own_width w = false)
+  | DZeros => w = 0
+  | DNone => False
+  end.
+Proof. exact adequate_facts. Qed.
+Print Assumptions C11_adequate_facts.
 
 (* ---- refuted parts of the full statement (known findings, replayed on the real code) ---- *)
 (* the same statement with the width bound of the format (w <= 32) instead of 24 is false *)
